@@ -5,7 +5,7 @@
 From Coq Require Import ZArith Bool String List Reals.
 From Flocq Require Import Core BinarySingleNaN.
 Require Import NixV.Base.Prelude NixV.Base.F64 NixV.Base.F64Facts NixV.Gen.GenDimensions.
-Require NixV.Access.Retrieval NixV.Access.VecUnits.
+Require NixV.Access.Retrieval NixV.Access.VecUnits NixV.Gen.GenPairs NixV.Axis.PairBridge.
 Require Import NixV.Axis.AxisSpec NixV.Axis.AxisSpecProofs NixV.Axis.SampledHand NixV.Axis.SearchProofs
                NixV.Axis.SampledProofs NixV.Axis.IntAxisProofs NixV.Axis.RangeModel NixV.Axis.RangeProofs
                NixV.Axis.RoundTrip NixV.Axis.Totality.
@@ -153,3 +153,23 @@ Example C07_vector_with_units_nonvacuous :
   Retrieval.positionToIndex_vec VecUnits.ex_starts VecUnits.ex_ends VecUnits.ex_units RangeMatch_Inclusive VecUnits.ex_axis
   = Ok [Some (2, 5); Some (2, 5)].
 Proof. exact VecUnits.vec_overload_example. Qed.
+
+(** * the start/end pair conversions regenerated from src/Dimensions.cpp on this run are the pair rule of
+    [C07_pair_spec] applied to the two scalar conversions, for all four kinds of dimension *)
+Theorem C07_pair_conversions_are_generated :
+  (forall s e dt off m, GenPairs.sampled_pair s e dt off m
+     = PairBridge.pair_rule (fun p r => getSampledIndex p off dt r) false m s e) /\
+  (forall s e n m, GenPairs.df_pair s e n m
+     = PairBridge.pair_rule (fun p r => getDataFrameIndex p n r) false m s e) /\
+  (forall s e labels own m, GenPairs.set_pair s e labels m own
+     = PairBridge.pair_rule (fun p r => getSetIndex p (if zlen labels =? 0 then own else labels) r) false m s e) /\
+  (forall s e ticks own m, GenPairs.range_pair s e ticks m own
+     = PairBridge.pair_rule (fun p r => getIndex p (if zlen ticks =? 0 then own else ticks) r) true m s e).
+Proof.
+  repeat split.
+  - exact PairBridge.sampled_pair_generated.
+  - exact PairBridge.df_pair_generated.
+  - exact PairBridge.set_pair_generated.
+  - exact PairBridge.range_pair_generated.
+Qed.
+Print Assumptions C07_pair_conversions_are_generated.
